@@ -47,6 +47,14 @@ def open_routes(ctx, rule):
     ok = bool(arms) and any(isinstance(c, ast.Call) and norm(c.func) == 'struct.unpack' for c in ast.walk(ast.Module(body=arms[0].body, type_ignores=[])))
     ctx.ob(rule, 'api.ParquetFile._parse_header:metadata-file-cut-by-its-recorded-footer-length', ok,
            'the whole body between the magic numbers is taken for the footer: a data file called *_metadata cannot be opened', api.loc(g))
+    # ... and the recorded length is counted back from the END of the file (what precedes the footer may be data pages)
+    if arms:
+        subs = [norm(x) for x in ast.walk(ast.Module(body=arms[0].body, type_ignores=[])) if isinstance(x, ast.Subscript) and isinstance(x.slice, ast.Slice)
+                and norm(x.value) == 'raw']
+        tail = [t for t in subs if t.replace(' ', '') in ('raw[-(head_size+8):-8]', 'raw[-8-head_size:-8]', 'raw[-(8+head_size):-8]')]
+        front = [t for t in subs if t.startswith('raw[4:') and 'head_size' in t]
+        ctx.ob(rule, 'api.ParquetFile._parse_header:footer-located-from-the-end-of-the-file', bool(tail) and not front,
+               'slices of the file: %s' % subs, api.loc(g))
 
 
 def _blocks(f):
@@ -366,6 +374,60 @@ def logical_annotations(ctx, rule):
             continue
         ctx.ob(rule, 'schema.%s:logical-%s-has-its-legacy-spelling' % (fn_name, mname), mname in mentioned,
                'LogicalType.%s given without converted_type must be read like the converted_type the format names for it' % mname, sch.loc(g))
+    # every legacy name is produced under the key / test that the format pairs it with (dict entries of the tables the
+    # step reads, attribute uses under an if, the INT / UINT prefix expression)
+    import re as _re
+    ct_names = set(ctx.idl.enums.get('ConvertedType', {}))
+    used = {n.id for n in ast.walk(g) if isinstance(n, ast.Name)}
+    dicts = [(g, d) for d in ast.walk(g) if isinstance(d, ast.Dict)]
+    for name_, vals in getattr(sch, 'assigns', {}).items():
+        if name_ in used:
+            dicts += [(None, d) for v in vals for d in ast.walk(v) if isinstance(d, ast.Dict)]
+
+    def legacy_of(v):
+        if isinstance(v, ast.Constant) and isinstance(v.value, str) and v.value in ct_names:
+            return v.value
+        if isinstance(v, ast.Attribute) and v.attr in ct_names:
+            return v.attr
+        return None
+    n_entries = 0
+    for owner, d in dicts:
+        for k, v in zip(d.keys, d.values):
+            nm = legacy_of(v)
+            if nm is None or k is None:
+                continue
+            n_entries += 1
+            kt = norm(k)
+            m_int = _re.fullmatch(r'(U?)INT_(\d+)', nm)
+            if m_int:
+                ok = isinstance(k, ast.Tuple) and len(k.elts) == 2 and all(isinstance(e, ast.Constant) for e in k.elts) and \
+                    {bool(e.value) if isinstance(e.value, bool) else e.value for e in k.elts} == {m_int.group(1) == '', int(m_int.group(2))} and \
+                    any(isinstance(e.value, bool) and e.value == (m_int.group(1) == '') for e in k.elts)
+                why = 'signedness and width of the key must be those of the name'
+            elif nm in ('TIME_MILLIS', 'TIME_MICROS'):
+                ok = nm.split('_')[1] in kt
+                why = 'a TIME annotation is told apart by its unit (MILLIS / MICROS; NANOS has no legacy spelling), not by anything else'
+            else:
+                want_key = {'UTF8': 'STRING'}.get(nm, nm)
+                ok = isinstance(k, ast.Constant) and k.value == want_key
+                why = 'LogicalType.%s is the legacy %s' % (want_key, nm)
+            ctx.ob(rule, 'schema.%s:legacy-name-%s-keyed-by-its-own-annotation:%s' % (fn_name, nm, kt[:30]), ok,
+                   'table entry %s: %s - %s' % (kt[:60], nm, why), sch.loc(d))
+    cfg_g = CFG(g)
+    for st in walk_no_nested(g):
+        if isinstance(st, ast.Assign):
+            nm = legacy_of(st.value)
+            if nm in ('TIME_MILLIS', 'TIME_MICROS'):
+                tests = ' && '.join(norm(e.test) for e, fld in cfg_g.enclosing_tests(st) if isinstance(e, ast.If) and fld == 'body')
+                ctx.ob(rule, 'schema.%s:legacy-name-%s-under-its-unit' % (fn_name, nm), nm.split('_')[1] in tests,
+                       'enclosing tests: %s' % tests[:160], sch.loc(st))
+    for e in ast.walk(g):
+        if isinstance(e, ast.IfExp) and isinstance(e.body, ast.Constant) and isinstance(e.orelse, ast.Constant) and {e.body.value, e.orelse.value} == {'INT', 'UINT'}:
+            t = e.test
+            neg = isinstance(t, ast.UnaryOp) and isinstance(t.op, ast.Not)
+            signed_when_true = 'isSigned' in norm(t) and not neg
+            ctx.ob(rule, 'schema.%s:INT-prefix-for-signed-UINT-for-unsigned' % fn_name,
+                   (e.body.value == 'INT') == signed_when_true and 'isSigned' in norm(t), norm(e)[:100], sch.loc(e))
     # it fills in, it never overrides: a converted_type that is present wins
     guards = [norm(x.test) for x in ast.walk(g) if isinstance(x, ast.If)]
     ctx.ob(rule, 'schema.%s:an-explicit-converted_type-is-kept' % fn_name,
